@@ -58,7 +58,8 @@ var Texts = map[string]string{
 	// two revisions of one module and an importer without revision-date: the import must follow the latest loaded
 	"bb-r1": `module bb { namespace "urn:bb"; prefix bb; revision 2020-01-01; grouping g { leaf old { type string; } } typedef t { type string; } }`,
 	"bb-r2": `module bb { namespace "urn:bb"; prefix bb; revision 2021-01-01; grouping g { leaf new { type string; } } typedef t { type int32; } }`,
-	"ib":    `module ib { namespace "urn:ib"; prefix ib; import bb { prefix bb; } container c { uses bb:g; } leaf l { type bb:t; } typedef tl { type bb:t; } leaf k { type tl; } }`,
+	"ib": `module ib { namespace "urn:ib"; prefix ib; import bb { prefix bb; } container c { uses bb:g; } leaf l { type bb:t; } typedef tl { type bb:t; } leaf k { type tl; }
+  leaf u { type union { type bb:t; type boolean; } } typedef tu { type union { type tl; type bb:t { pattern "p.*"; } } } leaf ku { type tu; } }`,
 	// accepted by the loader, rejected by Process: the errors must come back on every run
 	"e5": `module e5 { namespace "urn:e5"; prefix e5;
   typedef small { type int8 { range "1..500"; } }
@@ -224,6 +225,9 @@ func Dump(ms *yang.Modules, errs []error) string {
 			t := ""
 			if y := o.Entry.Type; y != nil {
 				t = fmt.Sprintf(" type=%s/%s units=%q dflt=%q pats=%v range=%s", y.Name, yang.TypeKindToName[y.Kind], y.Units, y.Default, y.Pattern, y.Range)
+				for _, mt := range y.Type { // union members, one level
+					t += fmt.Sprintf(" member=%s/%s/%q/%v", mt.Name, yang.TypeKindToName[mt.Kind], mt.Units, mt.Pattern)
+				}
 				if y.IdentityBase != nil {
 					var vs []string
 					for _, v := range y.IdentityBase.Values {
